@@ -186,7 +186,7 @@ def make_cbitset(pfx='cbitset'):
         % (cb_wf('self'), CB_BIT('self', 'idx')),
         harness_args=', i', harness_pre='size_t i;', replace=['%s_check_idx' % pfx])
     one('add', r'constexpr\s+void\s+add\(const cbitset<N>& other\)', 'void %s_add(%s* self, const %s* other)' % (pfx, V, V),
-        '__CPROVER_requires(%s && %s && other->N == self->N)\n__CPROVER_assigns(*self)\n'
+        '__CPROVER_requires(%s)\n__CPROVER_requires(%s)\n__CPROVER_requires(other->N == self->N)\n__CPROVER_assigns(*self)\n'
         '/* set union, word by word */\n__CPROVER_ensures(self->N == __CPROVER_old(self->N) && __CPROVER_forall { size_t vq_cba; (vq_cba < CB_WORDS) ==> (vq_cba < CB_UCOUNT(self) ==> self->data[vq_cba] == (__CPROVER_old(*self).data[vq_cba] | other->data[vq_cba])) && (vq_cba >= CB_UCOUNT(self) ==> self->data[vq_cba] == __CPROVER_old(*self).data[vq_cba]) })'
         % (cb_wf('self'), cb_wf('other').replace('w_ok', 'r_ok')),
         rules=[S(r'other\.data', 'other->data')] + R,
